@@ -24,6 +24,10 @@ def _run_unit(args):
     unit = mod.units(root)[idx]
     t0 = time.time()
     try:
+        from pyvc import core as _core
+        _core._ctr[0] = int(os.environ.get('VERIF_CTR_OFFSET', '0'))   # deterministic fresh names per unit: the VC text does not depend on which worker runs the unit
+        _core.DEFS.clear()
+        _core._MAT_CACHE.clear()
         eng = unit.build(root)
         if obl is None:
             res = eng.discharge(both=(tier == "thorough"), budget=unit.budget, stages=("z3-ematch",))
